@@ -129,7 +129,7 @@ Fixpoint wr (m : mode) (t : pty) (v : pval) (st : wst) {struct t} : res wst :=
   | TBits, VBits bytes n =>
       let! payload := bitvec_payload m bytes n in
       emit_tagged LengthDelimited (write_bytes payload) st
-  | TNull, VNull => Ok st                                  (* write_null: nothing, counter untouched *)
+  | TNull, VNull => Ok (set_tc st (w_tc st + 1))          (* write_null: nothing written, the component keeps its field number *)
   | TEnum _, VEnum i =>
       if w_root st then emit (write_enum_variant (u32_of_u64 i)) st
       else emit_tagged VarInt (write_enum_variant (u32_of_u64 i)) st
@@ -207,8 +207,10 @@ Definition slice (src : list N) (r : range) : res (list N) :=
   else if N.of_nat (length src) <? e then Panic P_SLICE_RANGE
   else Ok (firstn (N.to_nat (e - s)) (skipn (N.to_nat s) src)).
 
-Definition add_usize (m : mode) (a b : N) : res N :=
-  if usize_max <? a + b then (if overflow_checks m then Panic P_ARITH else Ok ((a + b) mod two64))
+(* content_position.checked_add(content_length).filter(|end| *end <= range.end) .ok_or(Io(UnexpectedEof)) *)
+Definition checked_end (a b e : N) : res N :=
+  if usize_max <? a + b then Err E_IO
+  else if e <? a + b then Err E_IO
   else Ok (a + b).
 
 Definition nlen (l : list N) : N := N.of_nat (length l).
@@ -222,11 +224,9 @@ Definition content_off_len (f : format) (sl : list N) : res (N * N) :=
   | Fixed32 => Ok (0, 4)
   end.
 
-(* index_enclosed.  Without overflow `position` strictly increases, so the loop body runs at most
-   |source| times.  With wrapping arithmetic (release) content_end may lie before position; a body
-   execution beyond |source| times means a position was visited twice, i.e. the loop never ends
-   (the tag deque grows without bound): Panic P_UNBOUNDED. *)
-Fixpoint ie_loop (fuel : nat) (m : mode) (src : list N) (position e : N) (tags : list tagentry)
+(* index_enclosed.  content_end never exceeds range.end and position strictly increases (a tag takes at
+   least one byte), so the loop body runs at most |source| times; the fuel is never exhausted. *)
+Fixpoint ie_loop (fuel : nat) (src : list N) (position e : N) (tags : list tagentry)
   : res (list tagentry) :=
   match fuel with
   | O => Panic P_UNBOUNDED
@@ -237,12 +237,12 @@ Fixpoint ie_loop (fuel : nat) (m : mode) (src : list N) (position e : N) (tags :
         let content_position := position + (nlen sl - nlen rest) in
         let! (off, clen) := content_off_len fmt rest in
         let content_position := content_position + off in
-        let! content_end := add_usize m content_position clen in
-        ie_loop f m src content_end e (tags ++ [(tag, fmt, (content_position, content_end))])
+        let! content_end := checked_end content_position clen e in
+        ie_loop f src content_end e (tags ++ [(tag, fmt, (content_position, content_end))])
       else Ok tags
   end.
-Definition index_enclosed (m : mode) (src : list N) (r : range) : res rstate :=
-  let! tags := ie_loop (length src + 2) m src (fst r) (snd r) [] in
+Definition index_enclosed (src : list N) (r : range) : res rstate :=
+  let! tags := ie_loop (length src + 2) src (fst r) (snd r) [] in
   Ok (Enclosed 1 tags).
 
 (* tags.iter().enumerate().find_map(..) + tags.remove(index) *)
@@ -305,9 +305,12 @@ Fixpoint rd (m : mode) (src : list N) (t : pty) (st : rstate) {struct t} : res (
   | TBits =>
       let! (sl, st') := next_reader src LengthDelimited st in
       let! (b, _) := read_bytes sl in
-      let! (bytes, n) := bitvec_from_trailing m b in
-      Ok (VBits bytes n, st')
-  | TNull => Ok (VNull, st)
+      if is_nil b then Ok (VBits [] 0, st')                  (* "protobuf does not serialize empty values" *)
+      else if (length b <? 8)%nat then Err E_IO               (* shorter than the length trailer *)
+      else
+        let! (bytes, n) := bitvec_from_trailing m b in
+        Ok (VBits bytes n, st')
+  | TNull => Ok (VNull, increment_tag_counter st)             (* read_null *)
   | TEnum n =>
       let '(o, st') := next_tag_range true (Some VarInt) st in
       let! index := match o with
@@ -318,7 +321,7 @@ Fixpoint rd (m : mode) (src : list N) (t : pty) (st : rstate) {struct t} : res (
   | TSeq fs =>
       (* read_set_or_sequence *)
       let '(o, st') := next_tag_range true (Some LengthDelimited) st in
-      let! enc := index_enclosed m src (unwrap_or o (0, 0)) in
+      let! enc := index_enclosed src (unwrap_or o (0, 0)) in
       let! (vs, _) :=
         (fix fields (fs : list (bool * pty)) (st : rstate) {struct fs} : res (list pval * rstate) :=
            match fs with
